@@ -171,6 +171,7 @@ func VerifC16Consume() {
 		dst, result = &str, func() ([][]string, error) { return c16Parse([]byte(str), o) }
 	}
 	var err error
+	var cons Consumer
 	panicked := false
 	func() {
 		defer func() {
@@ -178,7 +179,8 @@ func VerifC16Consume() {
 				panicked = true
 			}
 		}()
-		err = CSVConsumer(o.opts()...).Consume(strings.NewReader(text), dst)
+		cons = CSVConsumer(o.opts()...)
+		err = cons.Consume(strings.NewReader(text), dst)
 	}()
 	zv.AssertExcept("csv-consume-never-panics", !panicked, kind == 1 || kind == 2, "KF-C16-longer-destination-setcap")
 	if panicked {
@@ -206,6 +208,28 @@ func VerifC16Consume() {
 		got = c16DropEmpty(got)
 	}
 	zv.AssertExcept("delivered-records-are-the-standard-parse", c16SameRecords(got, want), o.reader.ReuseRecord && kind <= 2, "KF-C16-reuse-record-aliasing")
+	if kind <= 2 {
+		// delivered records are independent of one another: growing one in place
+		// (adding a column) leaves the others as delivered
+		for i := range table {
+			table[i] = append(table[i], "extra")
+		}
+		ok := len(table) == len(want)
+		for i := 0; ok && i < len(table); i++ {
+			ok = len(table[i]) == len(want[i])+1 && c16SameRecords([][]string{table[i][:len(want[i])]}, [][]string{want[i]})
+		}
+		zv.Assert("delivered-records-do-not-share-storage", ok)
+	}
+	if kind == 0 {
+		// the consumer can be used again: a second call delivers the same parse
+		zv.Reach("second-call")
+		var again [][]string
+		err2 := cons.Consume(strings.NewReader(text), &again)
+		zv.Assert("second-call-on-the-same-consumer-succeeds", err2 == nil)
+		if err2 == nil {
+			zv.Assert("second-call-delivers-the-same-records", c16SameRecords(again, want))
+		}
+	}
 }
 
 func c16DropEmpty(recs [][]string) [][]string {
